@@ -14,6 +14,8 @@ SERVER_SETS = {
     'modern': {'kex': ['curve25519-sha256', 'curve25519-sha256@libssh.org', 'sntrup761x25519-sha512@openssh.com'], 'key': ['ssh-ed25519', 'rsa-sha2-512'],
                'enc': ['chacha20-poly1305@openssh.com', 'aes256-gcm@openssh.com'], 'mac': ['hmac-sha2-256-etm@openssh.com', 'umac-128-etm@openssh.com']},
     'gss': {'kex': ['gss-group1-sha1-toWM5Slw5Ew8Mqkay+al2g==', 'gss-gex-sha1-x', 'curve25519-sha256'], 'key': ['ssh-ed25519'], 'enc': ['aes128-ctr'], 'mac': ['hmac-sha2-256']},
+    'strict-cbc': {'kex': ['curve25519-sha256', 'kex-strict-s-v00@openssh.com'], 'key': ['ssh-ed25519'], 'enc': ['chacha20-poly1305@openssh.com', 'aes128-cbc', 'aes128-ctr'],
+                   'mac': ['hmac-sha1-etm@openssh.com', 'umac-64-etm@openssh.com', 'hmac-sha2-256-etm@openssh.com']},
     'pseudo': {'kex': ['curve25519-sha256', 'ext-info-s', 'kex-strict-s-v00@openssh.com'], 'key': ['ssh-ed25519', 'ssh-ed25519-cert-v01@openssh.com'], 'enc': ['aes128-ctr'],
                'mac': ['hmac-sha2-256']},
 }
@@ -158,6 +160,48 @@ class Recs(Harness):
         return label
 
 
+class TwoServers(Harness):
+    """two servers of the same product at two symbolic versions audited one after the other in one process: the second report's recommendations equal those
+    of a fresh process (availability must depend on THIS server's version only)."""
+    prop, ob = PROP, 'O3'
+    width = 64
+
+    def __init__(self, product, va, sb):
+        self.product, self.va, self.sb = product, va, tuple(sb)
+        self.name = 'twoservers-%s-%s-then-%s' % (product.replace(' ', ''), va, 'x'.join(map(str, sb)))
+        self.cost = 100
+
+    def params(self):
+        return {'product': self.product, 'va': self.va, 'sb': list(self.sb)}
+
+    def inputs(self):
+        # the first server's version is concrete (an old and a new release), the second one symbolic
+        return {'va': self.va, 'vb': sym_version('b', self.sb)}
+
+    def recs(self, M, ver):
+        L = {c: list(v) for c, v in SERVER_SETS['weak'].items()}
+        j = OL.run_output(M, L, json=True, sw=BANNERS[self.product] + ver)
+        if isinstance(j['ret'], Exc):
+            return j['ret']
+        rec = j['doc']['recommendations']
+        return sorted((lvl, act, c, e['name']) for lvl in rec for act in rec[lvl] for c in rec[lvl][act] for e in rec[lvl][act][c])
+
+    def run(self, M, inp):
+        from vf.harness import fresh_process_state
+        fresh_process_state(M)
+        alone = self.recs(M, inp['vb'])
+        fresh_process_state(M)
+        first = self.recs(M, inp['va'])
+        second = self.recs(M, inp['vb'])
+        return {'alone': alone, 'second': second, 'first_ok': not isinstance(first, Exc)}
+
+    def check(self, inp, obs):
+        yield 'no-exception', not isinstance(obs['alone'], Exc) and not isinstance(obs['second'], Exc) and obs['first_ok']
+        if isinstance(obs['alone'], Exc) or isinstance(obs['second'], Exc):
+            return
+        yield 'second-server-same-as-fresh-process', obs['alone'] == obs['second']
+
+
 def max_warn_count():
     """TAB: 'critical iff failure' relies on fewer than 10 warnings per row (points = 10*fails + warns)"""
     import time
@@ -195,11 +239,15 @@ def tasks(tier):
                 if q and prod == 'Dropbear SSH' and ss not in ('weak', 'gss'):
                     continue
                 T.append(Recs(prod, sh, ss))
+    for prod, va, sb in [('OpenSSH', '10.0', (1, 1)), ('OpenSSH', '3.9', (1, 1)), ('OpenSSH', '5.3', (2, 1)), ('Dropbear SSH', '0.52', (4, 2)), ('libssh', '0.10.6', (1, 1, 1))]:
+        T.append(TwoServers(prod, va, sb))
     T.append(max_warn_count)
     return T
 
 
 def harness_by_name(name, params):
+    if name.split(':')[1].startswith('twoservers'):
+        return TwoServers(params['product'], params['va'], params['sb'])
     return Recs(params['product'], params['vshape'], params['sset'])
 
 
